@@ -160,7 +160,7 @@ Definition length_bounds (lens : list nat) (nb : nat) : result (list nat) :=
 (* returns (idx2bucket as a table indexed by idx, bucket2size as a table indexed by bucket).
    An empty data set gives two empty maps; a dynamic size is
    max(m // max(len_bounds[j], 1), batch_size), so zero-length utterances do not divide by zero.
-   ([Err] can only come from num_buckets = 0, which the parameter bounds exclude.) *)
+   ([Err] can only come from num_buckets = 0, which the bounds of param.Integer exclude.) *)
 Definition bucket_params (lens : list nat) (nb bs : nat) (dyn : bool)
   : result (list nat * list nat) :=
   match lens with
